@@ -123,6 +123,38 @@ def cli_preserve(ctx, progs, found_by):
                         ctx.add_violation({'input': {'source': src, 'which': 'cli-' + which, 'names': parts, 'as_string': False},
                                            'what': 'command line %r: %s' % (argv, '; '.join(probs[:3])), 'observed': out[:400],
                                            'found_by': found_by, 'oracle': 'preserve', 'shapes': rc.shapes_of(src)})
+        # several modules in one invocation (directory, in place): every module gets the same preserve lists
+        import os
+        group = [p for p in progs if len(idents(p[1])) >= 2][:12]
+        for gi in range(0, len(group) - 2, 3):
+            trio = group[gi:gi + 3]
+            common_names = sorted(set.union(*[set(idents(s)) for _i, s in trio]))
+            for which in ('locals', 'globals'):
+                chosen = ctx.rng.sample(common_names, min(len(common_names), 4))
+                d = os.path.join(cwd, 'tree%d%s' % (gi, which))
+                os.makedirs(d)
+                for k, (_i, s) in enumerate(trio):
+                    with open(os.path.join(d, 'module_%d.py' % k), 'w') as f:
+                        f.write(s)
+                argv = list(CLI_OTHERS_OFF) + (['--rename-globals'] if which == 'globals' else []) + ['--in-place']
+                for part in (','.join(chosen[:2]), ','.join(chosen[2:])):
+                    if part:
+                        argv += ['--preserve-' + which, part]
+                r = clirun.run_cli(argv + [d], cwd, force=True)
+                ctx.count()
+                ctx.bump('which', 'cli-tree-' + which)
+                if r['exit'] != 0:
+                    ctx.bump('cli', 'tree-exit-%s' % r['exit'])
+                    continue
+                for k, (ident, s) in enumerate(trio):
+                    with open(os.path.join(d, 'module_%d.py' % k)) as f:
+                        out = f.read()
+                    probs = alpha.preserved_problems(s, out, set(chosen), which)
+                    ctx.mark_nontrivial('clitree' + ident + which)
+                    if probs:
+                        ctx.add_violation({'input': {'source': s, 'which': 'cli-' + which, 'names': [','.join(chosen)], 'as_string': False, 'position_in_run': k},
+                                           'what': 'module %d of one command line run over a directory (%r): %s' % (k, argv, '; '.join(probs[:3])),
+                                           'observed': out[:400], 'found_by': found_by, 'oracle': 'preserve', 'shapes': rc.shapes_of(s)})
     finally:
         import shutil
         shutil.rmtree(cwd, ignore_errors=True)
